@@ -652,6 +652,84 @@ theorem learnOpenmpSeq32_eq (alpha β₁ β₂ lam : R) (nCues : Nat) (files : L
   unfold learnOpenmpSeq32 learnOpenmpSeq
   rw [ompParts32_eq allOutcomes chunk hc hfit]
 
+/-- **the exact no-wrap condition** of the `unsigned int` part bounds: the last
+    `start_val + chunksize` the loop computes is `⌈n / chunk⌉ · chunk`; when THAT
+    is below 2³² (and `n`, `chunk` fit `unsigned int`) no bound wraps.  Weaker
+    than `n + chunk < 2³²` (`ompBounds32_eq`): e.g. `chunk ≥ n` — one part —
+    never wraps, whatever `n + chunk` is.  When it fails the LAST part wraps
+    (`ompBounds32_wraps_example`). -/
+theorem ompBounds32_eq_nowrap (n chunk : UInt32) (hc : 1 ≤ chunk.toNat)
+    (hfit : (n.toNat + chunk.toNat - 1) / chunk.toNat * chunk.toNat < 4294967296) :
+    (ompBounds32 n chunk).map (fun p => (p.1.toNat, p.2.toNat)) = ompBounds n.toNat chunk.toNat := by
+  unfold ompBounds32 ompBounds
+  simp only
+  rw [List.map_filterMap]
+  apply List.filterMap_congr
+  intro ii hii
+  rw [List.mem_range] at hii
+  have hnlt : n.toNat < 4294967296 := n.toNat_lt
+  have hpc : (ii + 1) * chunk.toNat ≤ (n.toNat + chunk.toNat - 1) / chunk.toNat * chunk.toNat :=
+    Nat.mul_le_mul_right _ hii
+  have h1 : (ii + 1) * chunk.toNat ≤ n.toNat + chunk.toNat - 1 :=
+    le_trans hpc (Nat.div_mul_le_self _ _)
+  have hexp : (ii + 1) * chunk.toNat = ii * chunk.toNat + chunk.toNat := by ring
+  have h2 : ii * chunk.toNat < n.toNat := by omega
+  have hiilt : ii < 4294967296 := by
+    have : ii ≤ ii * chunk.toNat := Nat.le_mul_of_pos_right ii (by omega)
+    omega
+  have hs : (UInt32.ofNat ii * chunk).toNat = ii * chunk.toNat := by
+    have hm : ii % 2 ^ 32 = ii := Nat.mod_eq_of_lt (by omega)
+    rw [UInt32.toNat_mul, UInt32.toNat_ofNat', hm]
+    exact Nat.mod_eq_of_lt (by omega)
+  have hse : (UInt32.ofNat ii * chunk + chunk).toNat = ii * chunk.toNat + chunk.toNat := by
+    rw [UInt32.toNat_add, hs]
+    exact Nat.mod_eq_of_lt (by omega)
+  have hne : ¬ (UInt32.ofNat ii * chunk = n) := by
+    intro e
+    have := congrArg UInt32.toNat e
+    rw [hs] at this; omega
+  have hne' : ¬ (ii * chunk.toNat = n.toNat) := by omega
+  simp only [beq_iff_eq, hne, if_false, hne', Option.map_some, Option.some.injEq, Prod.mk.injEq, hs,
+    true_and]
+  by_cases hle : UInt32.ofNat ii * chunk + chunk ≤ n
+  · have hle' : ii * chunk.toNat + chunk.toNat ≤ n.toNat := by
+      have := UInt32.le_iff_toNat_le.mp hle; rw [hse] at this; exact this
+    rw [if_pos hle, hse, Nat.min_eq_left hle']
+  · have hle' : ¬ (ii * chunk.toNat + chunk.toNat ≤ n.toNat) := by
+      intro h; apply hle; rw [UInt32.le_iff_toNat_le, hse]; exact h
+    rw [if_neg hle, Nat.min_eq_right (by omega)]
+
+/-- outside the no-wrap condition a bound DOES wrap (so the condition is exact,
+    not merely sufficient): `2³² − 1` outcomes in parts of `2³¹` — the second part
+    is `[2³¹, 0)`, an empty range: the rows `2³¹ … 2³² − 2` are silently not
+    trained (no exception).  Not reachable in practice (the weight matrix would
+    need ≥ 2³¹ rows). -/
+theorem ompBounds32_wraps_example :
+    ompBounds32 4294967295 2147483648 = [(0, 2147483648), (2147483648, 0)] := by decide +kernel
+
+theorem ompParts32_eq_nowrap {α : Type} (xs : List α) (chunk : Nat) (hc : 1 ≤ chunk)
+    (hn : xs.length < 4294967296) (hk : chunk < 4294967296)
+    (hfit : (xs.length + chunk - 1) / chunk * chunk < 4294967296) : ompParts32 xs chunk = ompParts xs chunk := by
+  have hn' : (UInt32.ofNat xs.length).toNat = xs.length := by
+    rw [UInt32.toNat_ofNat']; exact Nat.mod_eq_of_lt (by omega)
+  have hk' : (UInt32.ofNat chunk).toNat = chunk := by
+    rw [UInt32.toNat_ofNat']; exact Nat.mod_eq_of_lt (by omega)
+  have h := ompBounds32_eq_nowrap (UInt32.ofNat xs.length) (UInt32.ofNat chunk) (by rw [hk']; exact hc)
+    (by rw [hn', hk']; exact hfit)
+  rw [hn', hk'] at h
+  unfold ompParts32 ompParts
+  rw [← h, List.map_map]
+  rfl
+
+theorem learnOpenmpSeq32_eq_nowrap (alpha β₁ β₂ lam : R) (nCues : Nat) (files : List (List (Event Nat Nat)))
+    (allOutcomes : List Nat) (chunk : Nat) (hc : 1 ≤ chunk)
+    (hn : allOutcomes.length < 4294967296) (hk : chunk < 4294967296)
+    (hfit : (allOutcomes.length + chunk - 1) / chunk * chunk < 4294967296) (w : Array R) :
+    learnOpenmpSeq32 alpha β₁ β₂ lam nCues files allOutcomes chunk w
+      = learnOpenmpSeq alpha β₁ β₂ lam nCues files allOutcomes chunk w := by
+  unfold learnOpenmpSeq32 learnOpenmpSeq
+  rw [ompParts32_eq_nowrap allOutcomes chunk hc hn hk hfit]
+
 end Pyndl
 
 namespace Pyndl
@@ -864,21 +942,58 @@ theorem ndlCoreWith_id (magic version : Nat) (cfg : NdlCfg) (alpha β₁ β₂ l
 
 /-- the chunking arguments `ndl.ndl` runs through with, for `nOut` outcome labels:
     `2 ≤ events_per_temporary_file < 2³²`, `1 ≤ n_outcomes_per_job`, and for
-    OpenMP `nOut + n_outcomes_per_job < 2³²` (the `unsigned int` arguments and
-    part bounds of ndl_openmp.pyx). -/
+    OpenMP `n_outcomes_per_job < 2³²` (`unsigned int chunksize`, else
+    `OverflowError`) and `⌈nOut / n_outcomes_per_job⌉ · n_outcomes_per_job < 2³²`
+    — the EXACT condition under which no `unsigned int` part bound of
+    ndl_openmp.pyx:47-54 wraps (`ompBounds32_eq_nowrap`; it holds whenever
+    `nOut + n_outcomes_per_job ≤ 2³²` and whenever `nOut ≤ n_outcomes_per_job`:
+    `CfgOK.of_sum`, `CfgOK.of_one_part`).  Outside this last clause the code does
+    NOT raise: the last part's `end_val` wraps below its `start_val`, the part is
+    an empty range and its rows are silently left untrained
+    (`ompBounds32_wraps_example`) — so no success theorem and no error theorem
+    holds there; it needs more than 2³¹ outcome rows.
+    (Earlier the clause was `nOut + n_outcomes_per_job < 2³²`, which is sufficient
+    but not necessary: for `n_outcomes_per_job ∈ [2³² − nOut, 2³²)` code and model
+    succeed.) -/
 structure CfgOK (cfg : NdlCfg) (nOut : Nat) : Prop where
   perFileLo : 2 ≤ cfg.perFile
   perFileHi : cfg.perFile < 4294967296
   perJobLo : 1 ≤ cfg.perJob
-  omp32 : cfg.method = .openmp → nOut + cfg.perJob < 4294967296
+  omp32 : cfg.method = .openmp →
+    cfg.perJob < 4294967296 ∧ (nOut + cfg.perJob - 1) / cfg.perJob * cfg.perJob < 4294967296
 
 instance (cfg : NdlCfg) (nOut : Nat) : Decidable (CfgOK cfg nOut) :=
   decidable_of_iff (2 ≤ cfg.perFile ∧ cfg.perFile < 4294967296 ∧ 1 ≤ cfg.perJob ∧
-      (cfg.method = .openmp → nOut + cfg.perJob < 4294967296))
+      (cfg.method = .openmp →
+        cfg.perJob < 4294967296 ∧ (nOut + cfg.perJob - 1) / cfg.perJob * cfg.perJob < 4294967296))
     ⟨fun ⟨a, b, c, d⟩ => ⟨a, b, c, d⟩, fun ⟨a, b, c, d⟩ => ⟨a, b, c, d⟩⟩
 
 theorem CfgOK.mono {cfg : NdlCfg} {n m : Nat} (h : CfgOK cfg n) (hmn : m ≤ n) : CfgOK cfg m :=
-  ⟨h.perFileLo, h.perFileHi, h.perJobLo, fun hm => by have := h.omp32 hm; omega⟩
+  ⟨h.perFileLo, h.perFileHi, h.perJobLo, fun hm => by
+    obtain ⟨a, b⟩ := h.omp32 hm
+    refine ⟨a, lt_of_le_of_lt (Nat.mul_le_mul_right _ (Nat.div_le_div_right (by omega))) b⟩⟩
+
+/-- the earlier, stronger clause `nOut + n_outcomes_per_job < 2³²` (even `≤`, with
+    `n_outcomes_per_job < 2³²`) suffices -/
+theorem CfgOK.of_sum {cfg : NdlCfg} {nOut : Nat} (h1 : 2 ≤ cfg.perFile) (h2 : cfg.perFile < 4294967296)
+    (h3 : 1 ≤ cfg.perJob)
+    (h4 : cfg.method = .openmp → cfg.perJob < 4294967296 ∧ nOut + cfg.perJob ≤ 4294967296) : CfgOK cfg nOut :=
+  ⟨h1, h2, h3, fun hm => by
+    obtain ⟨a, b⟩ := h4 hm
+    have hd := Nat.div_mul_le_self (nOut + cfg.perJob - 1) cfg.perJob
+    exact ⟨a, by omega⟩⟩
+
+/-- one part (`n_outcomes_per_job ≥ nOut`, the default 10 on small data) never wraps -/
+theorem CfgOK.of_one_part {cfg : NdlCfg} {nOut : Nat} (h1 : 2 ≤ cfg.perFile) (h2 : cfg.perFile < 4294967296)
+    (h3 : 1 ≤ cfg.perJob) (h4 : cfg.method = .openmp → cfg.perJob < 4294967296 ∧ nOut ≤ cfg.perJob) :
+    CfgOK cfg nOut :=
+  ⟨h1, h2, h3, fun hm => by
+    obtain ⟨a, b⟩ := h4 hm
+    refine ⟨a, ?_⟩
+    have : (nOut + cfg.perJob - 1) / cfg.perJob ≤ 1 := by
+      rw [Nat.div_le_iff_le_mul_add_pred (by omega)]; omega
+    calc (nOut + cfg.perJob - 1) / cfg.perJob * cfg.perJob ≤ 1 * cfg.perJob := Nat.mul_le_mul_right _ this
+      _ < 4294967296 := by omega⟩
 
 /-- **the generic end-to-end statement.**  Label lists `cues`, `outs` in ANY order
     that contain the names of the events; initial values `vals` denoting a weight
@@ -941,8 +1056,9 @@ theorem ndlCoreWith_spec (reorder : Event Nat Nat → Event Nat Nat)
         rwLearn_map_reorder _ _ _ _ _ reorder hre]
     | openmp =>
       simp only
-      rw [learnOpenmpSeq32_eq alpha β₁ β₂ lam n chunks (List.range nOut) cfg.perJob hjob
-        (by rw [List.length_range]; exact h32 hmeth),
+      rw [learnOpenmpSeq32_eq_nowrap alpha β₁ β₂ lam n chunks (List.range nOut) cfg.perJob hjob
+        (by rw [List.length_range]; exact hno) (h32 hmeth).1
+        (by rw [List.length_range]; exact (h32 hmeth).2),
         learnOpenmpSeq_eq_spec alpha β₁ β₂ lam n nOut chunks (List.range nOut) cfg.perJob hjob
         List.nodup_range hrows hcuesok _ hw0 i (List.mem_range.mpr hi), hflatR,
         rwLearn_map_reorder _ _ _ _ _ reorder hre]
@@ -964,7 +1080,7 @@ theorem ndlCoreWith_spec (reorder : Event Nat Nat → Event Nat Nat)
         | .openmp => learnOpenmpSeq32 alpha β₁ β₂ lam n chunks (List.range nOut) cfg.perJob vals)
       rw [hmeth]
     | openmp =>
-      have h3 : ¬ 4294967296 ≤ cfg.perJob := by have := h32 hmeth; omega
+      have h3 : ¬ 4294967296 ≤ cfg.perJob := by have := (h32 hmeth).1; omega
       simp only [h3, h2, if_false, false_and]
       show Except.ok _ = Except.ok _
       congr 3
@@ -1150,7 +1266,7 @@ theorem ndlModel_some (magic version : Nat) (cfg : NdlCfg) (alpha β₁ β₂ la
 /-- **`ndl.ndl` = specification, end to end** (training from scratch): for every
     event list the duplicate policy accepts, every method, and chunking arguments
     `CfgOK` (`2 ≤ events_per_temporary_file < 2³²`, `1 ≤ n_outcomes_per_job`,
-    OpenMP: `n_outcomes + n_outcomes_per_job < 2³²`), the model of `ndl.ndl` —
+    OpenMP: `n_outcomes_per_job < 2³²` and no wrap-around of the part bounds), the model of `ndl.ndl` —
     counting, id maps, duplicate policy on ids, binary chunk files (encode,
     numeric order, kernel reader), kernels per part (OpenMP: in 32-bit
     arithmetic), labelling — returns a labelled matrix whose value at EVERY
